@@ -24,6 +24,7 @@ RULE = ('cases = (a) exhaustive: causal Conv1d with kernel 1..12 x initial dilat
         'adversarial reals (all-zero, negative, +-1e30, 3e38, +-0.5 threshold values, N(0,1)).  '
         'Non-trivial: at least one masker fully pruned (all elements below threshold) or holding '
         'an extreme value; distinct = hash of (program, assignment).')
+RULE += ("  Round 3: heads of two classifiers concatenated into the output; the output returned as y, (y,), [y] or {'logits': y}.")
 ASSUMPTIONS = [
     'NaN/inf are not real values and are not assigned',
     'frozen (strided) time maskers are not assigned: an optimiser cannot reach them (C11)',
